@@ -159,6 +159,14 @@ class FinamInterp(Interp):
             for x in args[0]:
                 r *= x
             return r
+        if name in ("deque", "collections.deque"):
+            if kwargs or len(args) > 1:
+                raise AnalysisError("deque with maxlen not in vocabulary")
+            from .interp import Deque
+            return Deque(self.iterate(args[0], node) if args else [])
+        if name in ("count", "itertools.count"):
+            from .interp import Count
+            return Count(*args)
         if name in ("os.remove", "os.unlink"):
             self.effects.append(("remove", args[0]))
             return None
@@ -226,3 +234,58 @@ class FinamInterp(Interp):
         if not seq:
             self.on_raise(Sym("exc", "ValueError", "min() arg is an empty sequence"), node)
         return super().minmax(name, seq, node)
+
+
+def seed_from_init(it, cls, obj, params=None, skip=()):
+    """Partial evaluation of the constructors of `cls` (base classes first): every statement
+    `self.<attr> = <expr>` anywhere in an `__init__` whose right-hand side evaluates in the
+    abstract domain (constants, empty containers, constructor parameters bound by `params`)
+    seeds `obj.fields[attr]`; everything else is skipped.  Class-level attributes (`x = []` in
+    the class body) are NOT copied: they stay shared, as in Python.  This keeps the rules
+    independent of the names of private attributes: a renamed attribute is seeded under its new
+    name and read back by the very code that was renamed."""
+    params = dict(params or {})
+    repo = it.repo
+    done = []
+    for k in reversed(list(repo.mro(cls))):
+        f = k.methods.get("__init__")
+        if f is None:
+            continue
+        env = {"self": obj, "__mod__": f.module}
+        a = f.node.args
+        names = [x.arg for x in a.posonlyargs + a.args][1:]
+        defaults = a.defaults
+        for i, n in enumerate(names):
+            di = i - (len(names) - len(defaults))
+            if n in params:
+                env[n] = params[n]
+            elif di >= 0:
+                try:
+                    env[n] = it.eval(defaults[di], dict(env), f.module)
+                except (AnalysisError, Undecided, Raised):
+                    pass
+        for x, d in zip(a.kwonlyargs, a.kw_defaults):
+            if x.arg in params:
+                env[x.arg] = params[x.arg]
+            elif d is not None:
+                try:
+                    env[x.arg] = it.eval(d, dict(env), f.module)
+                except (AnalysisError, Undecided, Raised):
+                    pass
+        for st in ast.walk(f.node):
+            tgt = None
+            if isinstance(st, ast.Assign) and len(st.targets) == 1:
+                tgt, val = st.targets[0], st.value
+            elif isinstance(st, ast.AnnAssign) and st.value is not None:
+                tgt, val = st.target, st.value
+            if tgt is None or not (isinstance(tgt, ast.Attribute) and isinstance(tgt.value, ast.Name) and tgt.value.id == "self"):
+                continue
+            if tgt.attr in skip:
+                continue
+            try:
+                v = it.eval(val, dict(env), f.module)
+            except (AnalysisError, Undecided, Raised, KeyError, RecursionError):
+                continue
+            obj.fields[tgt.attr] = v
+            done.append(tgt.attr)
+    return done
